@@ -41,6 +41,14 @@ var lqSinkAddr = func() sdk.AccAddress {
 // (targets whose own vesting is still running, see check / record).
 var lqStrict bool
 
+// lqFunderAddr funds vesting accounts created by the real MsgConvertIntoVestingAccount (mkvest via=msg).
+var lqFunderAddr = func() sdk.AccAddress {
+	b := make([]byte, 20)
+	b[0] = 0xA0
+	b[19] = 0x78
+	return sdk.AccAddress(b)
+}()
+
 type lqObl struct {
 	Kind  string // own | share | liquidated
 	Sign  int
